@@ -25,18 +25,18 @@ def budget_s(tier):
 
 LEVELS_QUICK = [
     (2, 1, cm.KINDS7, ("real", "cplx"), ("plain", "odd")),
-    (2, 2, cm.KINDS7, ("real", "cplx"), ("plain", "odd")),
-    (2, 3, cm.KINDS7, ("cplx",), ("plain",)),
-    (3, 2, cm.KINDS7, ("real", "cplx"), ("plain", "odd")),
-    (3, 3, cm.KINDS7, ("cplx",), ("odd",)),
+    (2, 2, cm.KINDS7, ("real", "cplx", "eq"), ("plain", "odd")),
+    (2, 3, cm.KINDS7, ("cplx", "eq"), ("plain",)),
+    (3, 2, cm.KINDS7, ("real", "cplx", "eq"), ("plain", "odd")),
+    (3, 3, cm.KINDS7, ("cplx", "eq"), ("odd",)),
     (3, 4, cm.KINDS4, ("real",), ("plain",)),
 ]
 LEVELS_THOROUGH = [
     (2, 1, cm.KINDS7, ("real", "cplx", "dec"), ("plain", "odd")),
-    (2, 2, cm.KINDS7, ("real", "cplx", "dec"), ("plain", "odd")),
-    (2, 3, cm.KINDS7, ("real", "cplx", "dec"), ("plain", "odd")),
-    (3, 2, cm.KINDS7, ("real", "cplx", "dec"), ("plain", "odd")),
-    (3, 3, cm.KINDS7, ("real", "cplx"), ("plain", "odd")),
+    (2, 2, cm.KINDS7, ("real", "cplx", "dec", "eq"), ("plain", "odd")),
+    (2, 3, cm.KINDS7, ("real", "cplx", "dec", "eq"), ("plain", "odd")),
+    (3, 2, cm.KINDS7, ("real", "cplx", "dec", "eq"), ("plain", "odd")),
+    (3, 3, cm.KINDS7, ("real", "cplx", "eq"), ("plain", "odd")),
     (3, 4, cm.KINDS7, ("cplx",), ("plain",)),
     (4, 3, cm.KINDS7, ("real",), ("odd",)),
     (4, 4, cm.KINDS4, ("real",), ("plain",)),
